@@ -22,3 +22,5 @@ pub assume_specification<T, A: core::alloc::Allocator>[ Vec::<T, A>::set_len ](v
 pub fn vec_with_capacity<T>(n: usize) -> (v: Vec<T>)
 	ensures v@.len() == 0, vec_cap(v) == n
 { Vec::with_capacity(n) }
+pub assume_specification<T, A: core::alloc::Allocator>[ Vec::<T, A>::shrink_to_fit ](v: &mut Vec<T, A>)
+	ensures final(v)@ == old(v)@;
